@@ -99,40 +99,40 @@ Proof.
 Qed.
 
 (* ---------- the projection commutes ---------- *)
+Definition literal_only (secret : bool) (g : pgen) : Prop :=
+  pg_envs g = [] /\ pg_files g = [] /\
+  (secret = false -> forall kvs m, mapM Generators.parse_literal (pg_literals g) = Ok kvs ->
+                     Generators.validated_map kvs [] = Ok m -> forallb (fun kv => Hash.valid_utf8 (snd kv)) m = true).
+
 Theorem gen_node_projects secret g n :
+  literal_only secret g ->
   gen_node secret g = Ok n ->
   exists o, Generators.make_generated [] None (genargs_of secret g) = Ok o /\
             content_of_node n = Generators.content_of o /\
             get_name n = Generators.g_name o /\ get_namespace n = Generators.g_ns o /\
             get_kind n = (if Generators.g_secret o then "Secret" else "ConfigMap").
 Proof.
-  unfold gen_node. destruct (pg_name g) as [|c0 nm] eqn:EN; [discriminate|].
-  cbn [String.eqb]. 
+  intros (Henv & Hfil & Hutf).
+  unfold gen_node, gen_pairs. rewrite Henv, Hfil. cbn [map Generators.concat_res mapM bind app].
+  destruct (pg_name g) as [|c0 nm] eqn:EN; [discriminate|].
+  cbn [String.eqb].
   destruct (mapM Generators.parse_literal (pg_literals g)) as [kvs| | |] eqn:EL; cbn [bind]; try discriminate.
+  rewrite app_nil_r.
   destruct (Generators.validated_map kvs []) as [m| | |] eqn:EV; cbn [bind]; try discriminate.
   pose proof (validated_map_sorted kvs [] m I EV) as Hs.
   unfold Generators.make_generated, genargs_of. cbn [Generators.ga_name]. rewrite EN.
   unfold Generators.kv_load. cbn [Generators.ga_envs Generators.ga_literals Generators.ga_files map Generators.concat_res mapM bind].
   rewrite EL. cbn [bind app]. rewrite app_nil_r, EV. cbn [bind Generators.ga_secret].
   destruct secret.
-  - cbn [negb andb]. intros H. inv H. eexists. split; [reflexivity|].
+  - intros H. inv H. eexists. split; [reflexivity|].
     unfold content_of_node, Generators.content_of, get_kind, obj_kind, map_field_value, get_name, get_namespace, meta_string, get_meta.
     cbn [find_field String.eqb Ascii.eqb Bool.eqb node_value app Generators.g_secret Generators.g_data Generators.g_bin
          Generators.g_type Generators.g_name Generators.g_ns Generators.ga_type Generators.ga_name Generators.ga_ns].
     split; [|split; [|split]].
-    + f_equal.
-      * assert (ED : data_field true m =
-                     [("data", Map (map (fun kv : string * string => (fst kv, str_node (Hash.encode_base64 (snd kv)))) m))])
-          by (unfold data_field; destruct m; reflexivity).
-        rewrite ED.
-        destruct (pg_type g); cbn [find_field String.eqb Ascii.eqb Bool.eqb app node_dict];
-          rewrite map_map; cbn [fst snd node_value str_node];
-          rewrite dict_of_pairs_sorted by (apply (dsorted_map Hash.encode_base64); exact Hs); reflexivity.
-      * assert (ED : data_field true m =
-                     [("data", Map (map (fun kv : string * string => (fst kv, str_node (Hash.encode_base64 (snd kv)))) m))])
-          by (unfold data_field; destruct m; reflexivity).
-        rewrite ED. destruct (pg_type g); cbn [find_field String.eqb Ascii.eqb Bool.eqb app node_dict]; reflexivity.
-      * destruct (pg_type g); cbn [find_field String.eqb Ascii.eqb Bool.eqb app node_value str_node]; reflexivity.
+    + f_equal; unfold data_field; destruct (pg_type g);
+        cbn [find_field String.eqb Ascii.eqb Bool.eqb app node_dict node_value str_node];
+        rewrite ?map_map; cbn [fst snd node_value str_node];
+        rewrite ?dict_of_pairs_sorted by (apply (dsorted_map Hash.encode_base64); exact Hs); reflexivity.
     + destruct (String.eqb (pg_ns g) ""); cbn; reflexivity.
     + destruct (String.eqb (pg_ns g) "") eqn:E; cbn [app find_field String.eqb Ascii.eqb Bool.eqb nil_or_empty node_value str_node].
       * apply String.eqb_eq in E. rewrite E.
@@ -140,13 +140,14 @@ Proof.
         all: destruct (meta_map_field "annotations" _) as [|[k2 v2] t2] eqn:E2; [|unfold meta_map_field in E2; destruct (if pg_has_opts g then pg_annos g else []); inv E2; cbn]; reflexivity.
       * cbn. apply String.eqb_neq in E. destruct (pg_ns g); [congruence|reflexivity].
     + reflexivity.
-  - cbn [negb andb]. destruct (forallb (fun kv => Hash.valid_utf8 (snd kv)) m) eqn:EU; cbn [negb]; [|discriminate].
-    intros H. inv H. rewrite (split_data_utf8 _ EU). eexists. split; [reflexivity|].
+  - pose proof (Hutf eq_refl kvs m eq_refl EV) as EU.
+    unfold data_field. rewrite (split_data_utf8 _ EU). rewrite app_nil_r.
+    intros H. inv H. eexists. split; [reflexivity|].
     unfold content_of_node, Generators.content_of, get_kind, obj_kind, map_field_value, get_name, get_namespace, meta_string, get_meta.
     cbn [find_field String.eqb Ascii.eqb Bool.eqb node_value app Generators.g_secret Generators.g_data Generators.g_bin
          Generators.g_type Generators.g_name Generators.g_ns Generators.ga_type Generators.ga_name Generators.ga_ns].
     split; [|split; [|split]].
-    + unfold data_field. destruct m as [|kv0 mt]; cbn [find_field String.eqb Ascii.eqb Bool.eqb app node_dict]; [reflexivity|].
+    + unfold map_field. destruct m as [|kv0 mt]; cbn [find_field String.eqb Ascii.eqb Bool.eqb app node_dict]; [reflexivity|].
       f_equal. rewrite map_map. cbn [fst snd node_value str_node].
       rewrite dict_of_pairs_sorted by (apply (dsorted_map (fun x => x)); exact Hs).
       f_equal. clear. induction (kv0 :: mt) as [|[k v] t IH]; cbn; [reflexivity|now rewrite IH].
@@ -161,9 +162,10 @@ Qed.
 
 (* hence: the hash the pipeline computes from the generated document is C06's hash of the abstract object *)
 Corollary gen_hash_projects secret g n :
+  literal_only secret g ->
   gen_node secret g = Ok n ->
   exists o, Generators.make_generated [] None (genargs_of secret g) = Ok o /\
             Hash.hash_content (content_of_node n) = Hash.hash_content (Generators.content_of o).
 Proof.
-  intros H. destruct (gen_node_projects _ _ _ H) as (o & H1 & H2 & _). exists o. split; [exact H1|now rewrite H2].
+  intros HL H. destruct (gen_node_projects _ _ _ HL H) as (o & H1 & H2 & _). exists o. split; [exact H1|now rewrite H2].
 Qed.
